@@ -179,3 +179,69 @@ Proof.
   rewrite forallb_forall in Hall. apply Nat.leb_le. apply (Hall xs). apply LoadsTableProofs.range_N_In.
   match type of Hxs with _ <= ?b => let v := eval vm_compute in b in change b with v in Hxs end. lia.
 Qed.
+
+(* ---------- a Length reference ACROSS parts: the stream (object 3) is in part 1, its Length "4 0 R" names the integer object 4
+   of part 2; part 1 ends with the filtered cross-reference stream, part 2 with a table ---------- *)
+Definition ex_adoc_rl : adoc :=
+  {| a_version := bs "1.4";
+     a_trailer := [(bs "Root", ORef 7 0)];
+     a_objs := [((7, 0), ODict [(bs "Type", OName (bs "Catalog")); (bs "V", OReal (bs "2.5"))]);
+                ((3, 2), OStream [(bs "Length", ORef 4 0)] (bs "a(b" ++ [x0d; x0a])); ((4, 0), OInt 5)] |}.
+Definition ex_tstyle_m3 : tstyle :=
+  {| t_secs := [(3, 2); (7, 1)]; t_eols := [1]; t_kw_eol := ELF; t_sec_eols := [ECR]; t_sec_sp := [false];
+     t_f1 := []; t_trailer := YDefault; t_f2 := [] |}.
+Definition ex_parts_rl : list mpart :=
+  [{| mp_nums := [3]; mp_old := [(7, ODict [(bs "Type", OName (bs "Old"))])]; mp_relist := []; mp_order := [7; 3];
+      mp_xref := XStream ex_xs_f; mp_sx := (ELF, 0%nat, 0%nat, ELF, None) |};
+   {| mp_nums := [7; 4]; mp_old := []; mp_relist := [3]; mp_order := [];
+      mp_xref := XTable ex_tstyle_m3; mp_sx := (ECRLF, 1%nat, 2%nat, ECR, Some ELF) |}].
+
+Lemma ex_trailer_dom_rl t : t_trailer t = YDefault -> LoadsMultiMixed.trailer_dom ex_adoc_rl t.
+Proof. exact (ex_trailer_dom_x t). Qed.
+
+Theorem example_loads_multi_reflen :
+  exists file, ref_write_multi ex_fstyle ex_parts_rl ex_adoc_rl = Some file /\
+               LoadsMultiMixedFull.multi_dom_mixed LoadsFilterProofs.decompress_ref LoadsFilterProofs.can_ref ex_fstyle ex_parts_rl ex_adoc_rl file.
+Proof.
+  eexists. split; [vm_compute; reflexivity|].
+  assert (Hr : real_wf (bs "2.5")) by (exists false, (bs "2"), (bs "5"); repeat split; try reflexivity; discriminate).
+  split; [reflexivity|]. split.
+  { cbn [LoadsMultiMixed.parts_ok ex_parts_rl]. split; [|split; [|exact I]].
+    - unfold LoadsMultiMixed.part_ok. cbn [mp_xref]. split.
+      { right. split; [reflexivity|]. split; [reflexivity|]. split; [vm_compute; discriminate|reflexivity]. }
+      split; [left; reflexivity|].
+      match goal with |- spell_wf (ODict ?d) _ /\ _ =>
+        let v := eval vm_compute in d in assert (Hd : d = v) by (vm_compute; reflexivity); rewrite Hd end.
+      split.
+      + cbn.
+        repeat match goal with
+               | |- _ /\ _ => split
+               | |- NoDup _ => repeat (constructor; [cbn; intuition discriminate|]); constructor
+               | |- True => exact I
+               | |- _ = true => reflexivity
+               | |- _ <= _ => unfold u32_max, u16_max; lia
+               end.
+      + vm_compute. lia.
+    - unfold LoadsMultiMixed.part_ok. cbn [mp_xref]. apply ex_trailer_dom_rl. reflexivity. }
+  split.
+  { unfold LoadsTableProofs.tops. cbn [a_objs ex_adoc_rl map fst snd].
+    (constructor; [|constructor; [|constructor; [|constructor]]]); cbn;
+      repeat match goal with
+             | |- _ /\ _ => split
+             | |- NoDup _ => repeat (constructor; [cbn; intuition discriminate|]); constructor
+             | |- True => exact I
+             | |- real_wf _ => exact Hr
+             | |- _ = true => reflexivity
+             | |- _ = false => reflexivity
+             | |- (_ <= _)%nat => vm_compute; lia
+             | |- _ <= _ => unfold u32_max, u16_max; lia
+             | |- _ \/ _ => right; exists 4, 0; split; [reflexivity|]; right; right; left; reflexivity
+             end. }
+  split; [vm_compute; discriminate|]. split; [repeat split; reflexivity|].
+  split; [vm_compute; discriminate|]. split; [vm_compute; discriminate|]. split; [vm_compute; reflexivity|].
+  intros lastp xs Hl Hxs. cbn in Hl. inversion Hl; subst lastp. clear Hl.
+  assert (Hall : forallb (fun xs => (9 + length (LoadsTableProofs.sx_mid ECRLF 1 xs 2 ECR) <=? 25)%nat) (range_N 0 900) = true)
+    by (vm_compute; reflexivity).
+  rewrite forallb_forall in Hall. apply Nat.leb_le. apply (Hall xs). apply LoadsTableProofs.range_N_In.
+  match type of Hxs with _ <= ?b => let v := eval vm_compute in b in change b with v in Hxs end. lia.
+Qed.
